@@ -206,12 +206,25 @@ impl SimClock {
     pub fn new(core: Rc<RefCell<ClockCore>>, tag: u16) -> Self {
         SimClock { core, tag }
     }
+    /// keep the clock coherent with a timestamp it is said to have produced
+    pub fn saw(core: &Rc<RefCell<ClockCore>>, t: Time) {
+        let mut k = core.borrow_mut();
+        if t > k.now {
+            k.now = t;
+        }
+    }
     fn cmd(&mut self, c: ClockCmd) -> Result<Time, ClockFail> {
         let mut k = self.core.borrow_mut();
         let n = k.calls;
         k.calls += 1;
         let fail = k.fail_all || k.fail_calls.contains(&n);
         let tag = self.tag;
+        if !fail {
+            if let ClockCmd::Step(d) = &c {
+                // a stepped clock reads differently afterwards
+                k.now = k.now + *d;
+            }
+        }
         k.log.push((tag, c, !fail));
         if fail {
             Err(ClockFail)
